@@ -139,6 +139,8 @@ def translate_sources():
         for fn in os.listdir(tdir):
             if fn.endswith(".lean") and fn[:-5] not in names:
                 os.remove(os.path.join(tdir, fn))
+    _write_if_changed(os.path.join(LEAN, "FinamModel", "DriverTr.lean"),
+                      py2lean.driver_source(trspecs.SPECS, TRANSLATION_STATUS, root))
     _write_if_changed(os.path.join(LEAN, "FinamModel", "TranslatedAll.lean"),
                       "/- GENERATED by harness/common.py — do not edit. -/\n"
                       + "".join(f"import FinamModel.Translated.{n}\n" for n in names))
